@@ -6,12 +6,18 @@
 
    dispatcher   trigger():   receives the next message OR an error from errs (a Go select: when both are ready
                              the runtime chooses - both actions are enabled);
-                hold:        waits for a free worker (workerJobs <- job) or for "no worker is left";
-                             DispatchReadsErrs = TRUE: also receives from errs here (fix F33);
+                hold:        waits for a free worker (workerJobs <- job) or for "no worker is left".
+                             HoldPolicy = "ignore": does not look at errs meanwhile (the code before fix F33);
+                             "drain": keeps receiving from errs while it waits, the message in hand still goes to
+                             a worker, then the node stops with the error (the code);
+                             "giveup" / "giveup-sync": stops at the first error with the message in hand, which it
+                             nacks last, in the deferred function / at once (two repairs that were tried and dropped:
+                             the first changes which messages reach a worker - an existing test of the repository pins
+                             that -, the second deadlocks on the source's ticket order);
                 deferred:    closes the job channels, then waits for the workers and the coordinator.
                              DrainWhileWaitingWorkers = FALSE: waits for the workers first and drains errs only
                              while waiting for the coordinator (the code before fix F33); TRUE: drains errs while
-                             waiting for both.  Nacks the message it still holds last (`unsent`).
+                             waiting for both.
    worker       takes a job, processes it (pass: the message leaves on `out`; fail: the processor's own nack
                 failed - StatusError - and the worker's node stops), hands it to the coordinator (job.Done() blocks
                 until the coordinator collects it) and exits after a failed job or when the job channel is closed.
@@ -20,8 +26,7 @@
                 tolerated: NackErr) is reported on errs too; `errs <- err` blocks while errs is full.
 
    A nack of message m goes through the source's ticket queue: it returns only after every earlier message is
-   resolved (acked / nacked / forwarded).  UnsentNack = "sync" is the rejected design "nack the held message before
-   returning" - TLC shows that it deadlocks; "deferred" is the code.
+   resolved (acked / nacked / forwarded).
 
    Properties: no deadlock (CHECK_DEADLOCK: the only state without a successor other than Done-stuttering is a
    wedge), Finishes (the node returns), AllResolved (every message taken from the stream is resolved when the node
@@ -29,8 +34,8 @@
 EXTENDS Naturals, Sequences, FiniteSets
 
 CONSTANTS N, W,
-          DispatchReadsErrs, DrainWhileWaitingWorkers,
-          UnsentNack          \* "deferred" | "sync"
+          HoldPolicy,         \* "ignore" | "drain" | "giveup" | "giveup-sync"
+          DrainWhileWaitingWorkers
 
 Msg == 1..N
 Wk == 1..W
@@ -39,17 +44,18 @@ VARIABLES res,       \* res[m] \in {"pass", "fail"}: chosen initially
           nackErr,   \* nackErr[m]: a nack of m by the coordinator fails (nothing tolerated)
           next,      \* next message of the incoming stream
           dpc, held, unsent,
+          derr,      \* the dispatcher took an error while it was waiting for a worker
           wst, wjob, \* worker state "idle" | "busy" | "ready" (blocked in job.Done()) | "exited"
           cq,        \* coordinatorJobs
           cpc, cjob, cfail,
           errs,      \* number of errors in the channel (capacity W)
           closed,    \* the job channels are closed
           resolved, statusErr
-vars == <<res, nackErr, next, dpc, held, unsent, wst, wjob, cq, cpc, cjob, cfail, errs, closed, resolved, statusErr>>
+vars == <<res, nackErr, next, dpc, held, unsent, derr, wst, wjob, cq, cpc, cjob, cfail, errs, closed, resolved, statusErr>>
 
 Init == /\ res \in [Msg -> {"pass", "fail"}] /\ nackErr \in [Msg -> BOOLEAN]
         /\ \A m \in Msg : res[m] = "fail" => ~nackErr[m]     \* (irrelevant for a failed message: fewer initial states)
-        /\ next = 1 /\ dpc = "trigger" /\ held = 0 /\ unsent = 0
+        /\ next = 1 /\ dpc = "trigger" /\ held = 0 /\ unsent = 0 /\ derr = FALSE
         /\ wst = [w \in Wk |-> "idle"] /\ wjob = [w \in Wk |-> 0]
         /\ cq = <<>> /\ cpc = "next" /\ cjob = 0 /\ cfail = FALSE
         /\ errs = 0 /\ closed = FALSE /\ resolved = {} /\ statusErr = {}
@@ -59,44 +65,47 @@ EarlierResolved(m) == \A k \in 1..(m - 1) : k \in resolved
 \* ---------------------------------------------------------------- dispatcher
 DTriggerMsg == /\ dpc = "trigger" /\ next <= N
                /\ held' = next /\ next' = next + 1 /\ dpc' = "hold"
-               /\ UNCHANGED <<res, nackErr, unsent, wst, wjob, cq, cpc, cjob, cfail, errs, closed, resolved, statusErr>>
+               /\ UNCHANGED <<derr, res, nackErr, unsent, wst, wjob, cq, cpc, cjob, cfail, errs, closed, resolved, statusErr>>
 DTriggerErr == /\ dpc = "trigger" /\ errs > 0
                /\ errs' = errs - 1 /\ dpc' = "defer"
-               /\ UNCHANGED <<res, nackErr, next, held, unsent, wst, wjob, cq, cpc, cjob, cfail, closed, resolved, statusErr>>
+               /\ UNCHANGED <<derr, res, nackErr, next, held, unsent, wst, wjob, cq, cpc, cjob, cfail, closed, resolved, statusErr>>
 DTriggerEnd == /\ dpc = "trigger" /\ next = N + 1          \* the incoming stream is closed
                /\ dpc' = "defer"
-               /\ UNCHANGED <<res, nackErr, next, held, unsent, wst, wjob, cq, cpc, cjob, cfail, errs, closed, resolved, statusErr>>
+               /\ UNCHANGED <<derr, res, nackErr, next, held, unsent, wst, wjob, cq, cpc, cjob, cfail, errs, closed, resolved, statusErr>>
 DDispatch(w) == /\ dpc = "hold" /\ wst[w] = "idle" /\ ~closed
                 /\ wst' = [wst EXCEPT ![w] = "busy"] /\ wjob' = [wjob EXCEPT ![w] = held]
-                /\ cq' = Append(cq, held) /\ held' = 0 /\ dpc' = "trigger"
-                /\ UNCHANGED <<res, nackErr, next, unsent, cpc, cjob, cfail, errs, closed, resolved, statusErr>>
+                /\ cq' = Append(cq, held) /\ held' = 0
+                /\ dpc' = (IF derr THEN "defer" ELSE "trigger")     \* after an error: stop like after a failed trigger
+                /\ UNCHANGED <<res, nackErr, next, unsent, derr, cpc, cjob, cfail, errs, closed, resolved, statusErr>>
 DNoWorker == /\ dpc = "hold" /\ \A w \in Wk : wst[w] = "exited"
              /\ EarlierResolved(held)                        \* msg.Nack(...) returns only then
              /\ resolved' = resolved \cup {held} /\ held' = 0 /\ dpc' = "defer"
-             /\ UNCHANGED <<res, nackErr, next, unsent, wst, wjob, cq, cpc, cjob, cfail, errs, closed, statusErr>>
-DHoldErr == /\ DispatchReadsErrs /\ dpc = "hold" /\ errs > 0
+             /\ UNCHANGED <<derr, res, nackErr, next, unsent, wst, wjob, cq, cpc, cjob, cfail, errs, closed, statusErr>>
+DHoldErr == /\ HoldPolicy # "ignore" /\ dpc = "hold" /\ errs > 0
             /\ errs' = errs - 1
-            /\ IF UnsentNack = "sync"
-                 THEN dpc' = "syncnack" /\ UNCHANGED <<held, unsent>>
-                 ELSE dpc' = "defer" /\ unsent' = held /\ held' = 0
+            /\ IF HoldPolicy = "drain"
+                 THEN derr' = TRUE /\ UNCHANGED <<dpc, held, unsent>>          \* keeps waiting for a worker
+               ELSE IF HoldPolicy = "giveup-sync"
+                 THEN dpc' = "syncnack" /\ UNCHANGED <<held, unsent, derr>>
+               ELSE dpc' = "defer" /\ unsent' = held /\ held' = 0 /\ UNCHANGED derr
             /\ UNCHANGED <<res, nackErr, next, wst, wjob, cq, cpc, cjob, cfail, closed, resolved, statusErr>>
 DSyncNack == /\ dpc = "syncnack" /\ EarlierResolved(held)
              /\ resolved' = resolved \cup {held} /\ held' = 0 /\ dpc' = "defer"
-             /\ UNCHANGED <<res, nackErr, next, unsent, wst, wjob, cq, cpc, cjob, cfail, errs, closed, statusErr>>
+             /\ UNCHANGED <<derr, res, nackErr, next, unsent, wst, wjob, cq, cpc, cjob, cfail, errs, closed, statusErr>>
 DClose == /\ dpc = "defer"
           /\ closed' = TRUE /\ dpc' = (IF DrainWhileWaitingWorkers THEN "drain" ELSE "waitworkers")
-          /\ UNCHANGED <<res, nackErr, next, held, unsent, wst, wjob, cq, cpc, cjob, cfail, errs, resolved, statusErr>>
+          /\ UNCHANGED <<derr, res, nackErr, next, held, unsent, wst, wjob, cq, cpc, cjob, cfail, errs, resolved, statusErr>>
 DWorkersGone == /\ dpc = "waitworkers" /\ \A w \in Wk : wst[w] = "exited"
                 /\ dpc' = "drain"
-                /\ UNCHANGED <<res, nackErr, next, held, unsent, wst, wjob, cq, cpc, cjob, cfail, errs, closed, resolved, statusErr>>
+                /\ UNCHANGED <<derr, res, nackErr, next, held, unsent, wst, wjob, cq, cpc, cjob, cfail, errs, closed, resolved, statusErr>>
 DDrainErr == /\ dpc = "drain" /\ errs > 0
              /\ errs' = errs - 1
-             /\ UNCHANGED <<res, nackErr, next, dpc, held, unsent, wst, wjob, cq, cpc, cjob, cfail, closed, resolved, statusErr>>
+             /\ UNCHANGED <<derr, res, nackErr, next, dpc, held, unsent, wst, wjob, cq, cpc, cjob, cfail, closed, resolved, statusErr>>
 DDrained == /\ dpc = "drain" /\ cpc = "closed" /\ \A w \in Wk : wst[w] = "exited"
             /\ errs' = 0
             /\ IF unsent # 0 THEN resolved' = resolved \cup {unsent} ELSE resolved' = resolved
             /\ dpc' = "done"
-            /\ UNCHANGED <<res, nackErr, next, held, unsent, wst, wjob, cq, cpc, cjob, cfail, closed, statusErr>>
+            /\ UNCHANGED <<derr, res, nackErr, next, held, unsent, wst, wjob, cq, cpc, cjob, cfail, closed, statusErr>>
 
 \* ---------------------------------------------------------------- workers
 WFinish(w) == /\ wst[w] = "busy"
@@ -106,15 +115,15 @@ WFinish(w) == /\ wst[w] = "busy"
                         /\ resolved' = resolved \cup {m} /\ statusErr' = statusErr \cup {m}
                    ELSE UNCHANGED <<resolved, statusErr>>
               /\ wst' = [wst EXCEPT ![w] = "ready"]
-              /\ UNCHANGED <<res, nackErr, next, dpc, held, unsent, wjob, cq, cpc, cjob, cfail, errs, closed>>
+              /\ UNCHANGED <<derr, res, nackErr, next, dpc, held, unsent, wjob, cq, cpc, cjob, cfail, errs, closed>>
 WExit(w) == /\ wst[w] = "idle" /\ closed
             /\ wst' = [wst EXCEPT ![w] = "exited"]
-            /\ UNCHANGED <<res, nackErr, next, dpc, held, unsent, wjob, cq, cpc, cjob, cfail, errs, closed, resolved, statusErr>>
+            /\ UNCHANGED <<derr, res, nackErr, next, dpc, held, unsent, wjob, cq, cpc, cjob, cfail, errs, closed, resolved, statusErr>>
 
 \* ---------------------------------------------------------------- coordinator
 CTake == /\ cpc = "next" /\ cq # <<>>
          /\ cjob' = Head(cq) /\ cq' = Tail(cq) /\ cpc' = "wait"
-         /\ UNCHANGED <<res, nackErr, next, dpc, held, unsent, wst, wjob, cfail, errs, closed, resolved, statusErr>>
+         /\ UNCHANGED <<derr, res, nackErr, next, dpc, held, unsent, wst, wjob, cfail, errs, closed, resolved, statusErr>>
 CCollect(w) ==
   /\ cpc = "wait" /\ wst[w] = "ready" /\ wjob[w] = cjob
   /\ wst' = [wst EXCEPT ![w] = (IF cjob \in statusErr THEN "exited" ELSE "idle")]
@@ -125,13 +134,13 @@ CCollect(w) ==
        THEN /\ resolved' = resolved \cup {cjob}              \* in dispatch order: every earlier job is resolved
             /\ cpc' = (IF nackErr[cjob] THEN "report" ELSE "next") /\ UNCHANGED cfail
      ELSE resolved' = resolved \cup {cjob} /\ cpc' = "next" /\ UNCHANGED cfail      \* forwarded downstream
-  /\ UNCHANGED <<res, nackErr, next, dpc, held, unsent, cq, cjob, errs, closed, statusErr>>
+  /\ UNCHANGED <<derr, res, nackErr, next, dpc, held, unsent, cq, cjob, errs, closed, statusErr>>
 CReport == /\ cpc = "report" /\ errs < W
            /\ errs' = errs + 1 /\ cpc' = "next"
-           /\ UNCHANGED <<res, nackErr, next, dpc, held, unsent, wst, wjob, cq, cjob, cfail, closed, resolved, statusErr>>
+           /\ UNCHANGED <<derr, res, nackErr, next, dpc, held, unsent, wst, wjob, cq, cjob, cfail, closed, resolved, statusErr>>
 CClose == /\ cpc = "next" /\ cq = <<>> /\ closed
           /\ cpc' = "closed"
-          /\ UNCHANGED <<res, nackErr, next, dpc, held, unsent, wst, wjob, cq, cjob, cfail, errs, closed, resolved, statusErr>>
+          /\ UNCHANGED <<derr, res, nackErr, next, dpc, held, unsent, wst, wjob, cq, cjob, cfail, errs, closed, resolved, statusErr>>
 
 Done == dpc = "done" /\ UNCHANGED vars
 
